@@ -15,11 +15,19 @@ import (
 
 var typeNames = map[int]string{TInt: "INT", TVarchar: "VARCHAR", TBool: "BOOLEAN", TBigInt: "BIGINT"}
 
-func valSQL(v Val) (string, bool) {
+func valSQL(v Val, style ...int) (string, bool) {
 	switch v.K {
 	case "i":
 		if v.I < 0 {
 			return "", false
+		}
+		if len(style) > 0 {
+			switch style[0] {
+			case 1:
+				return "0" + fmt.Sprint(v.I), true
+			case 2:
+				return "000" + fmt.Sprint(v.I), true
+			}
 		}
 		return fmt.Sprint(v.I), true
 	case "s":
@@ -98,7 +106,7 @@ func (s *Stmt) SQLText() (string, bool) {
 			}
 			var vs []string
 			for _, v := range r {
-				x, ok := valSQL(v)
+				x, ok := valSQL(v, s.LitStyle)
 				if !ok {
 					return "", false
 				}
@@ -113,7 +121,7 @@ func (s *Stmt) SQLText() (string, bool) {
 	case KUpdate:
 		var sets []string
 		for _, si := range s.Set {
-			x, ok := valSQL(si.V)
+			x, ok := valSQL(si.V, s.LitStyle)
 			if !ok {
 				return "", false
 			}
